@@ -28,6 +28,8 @@
 (*    HExit   the lending call returns (guard dropped)                     *)
 (*    HDrop   an unconsumed guard is dropped (any order between guards of  *)
 (*            different engines: nothing in Rust forces LIFO there)        *)
+(*    HRwr    Engine::run_with_reference: a whole lending call of one      *)
+(*            `&mut` loan around ONE script that uses and stashes it       *)
 (* Script actions on a handle: use now through a registered method (by     *)
 (* `&T` or `&mut T`), through a host identity function, set the object,    *)
 (* copy a VALUE out, stash the handle (global, closure, list, box, hash    *)
@@ -299,6 +301,38 @@ HDrop(g) ==
   /\ pend' = -1
   /\ UNCHANGED <<ng, cs, oval, entered, stash, child, copied, acts, ibind, nd, done>>
 
+\* Engine::run_with_reference(obj, bind_to, script): a complete lending call of one `&mut` loan whose body
+\* is ONE script; the host binds the global, runs the script and resets the global to void (so D3 does
+\* not apply to this API).  The script uses the handle and stashes it in place p.
+HRwr(e, o, p) ==
+  /\ Idle /\ ng < MaxGuards /\ Len(cs) < 2 /\ EngFree(e) /\ acts < MaxActs
+  /\ (ng = 0 => (e = 1 /\ o = "A"))
+  /\ (e = 2 => \E g \in GuardIds : G[g].st # "none" /\ G[g].eng = 1)
+  /\ Lendable(R(o, "mut"))
+  /\ p \in {"global", "closure", "list", "box", "hash"} /\ stash[p] = NoStash
+  /\ LET g == ng + 1
+         r == GName(g, 1)
+         cell == [g |-> g, k |-> 1]
+         ref == [t |-> "ref", g |-> g, k |-> 1]
+         weak1 == Append(weak, ref)
+         dl == IF Shared THEN Suffix(weak1, 1) ELSE <<ref>>
+         weak2 == IF Shared THEN Prefix(weak1, Len(weak1) - 1) ELSE weak
+         mem3 == IF Shared THEN Prefix(Append(mem, cell), Len(mem)) ELSE mem
+         weak3 == IF Shared THEN Prefix(weak2, Len(weak2) - 1) ELSE weak2 IN
+       /\ G' = [G EXCEPT ![g] = [st |-> "closed", eng |-> e, refs |-> <<R(o, "mut")>>, frame |-> Top]]
+       /\ ng' = g
+       /\ stash' = [stash EXCEPT ![p] = [h |-> cell, eng |-> e, m |-> "mut"]]
+       /\ mem' = mem3 /\ weak' = weak3 /\ ibind' = [ibind EXCEPT ![g] = dl]
+       /\ blame' = blame \cup Blames(G', mem3, weak3, ibind', child)
+       /\ feat' = feat \cup {"rwr", "stash-" \o p} \cup (IF Top # 0 THEN {"nest"} ELSE {}) \cup (IF e = 2 THEN {"2eng"} ELSE {})
+                       \cup (IF EverLent(o) THEN {"relend"} ELSE {})
+       /\ hist' = Append(hist, [h |-> "rwr", eng |-> e, obj |-> o, bind |-> r,
+                                script |-> "(emit (cell-get-mut " \o r \o ")) " \o PlacePut(p, r, "")[1],
+                                src |-> "#host run_with_reference e" \o ToString(e) \o " " \o o \o " " \o r \o " stash-" \o p,
+                                class |-> "ok", emit |-> <<ToString(oval[o])>>, acc |-> <<o \o ".get_mut">>])
+  /\ acts' = acts + 1 /\ pend' = -1
+  /\ UNCHANGED <<cs, oval, entered, child, copied, nd, done>>
+
 -----------------------------------------------------------------------------
 (* Script steps.  A script runs on engine e whenever the host can call e.run: at top level or
    inside a lending call, as long as no unconsumed guard holds e. *)
@@ -444,6 +478,7 @@ Host ==
   \/ \E g \in GuardIds : HEnter(g, IF g = 1 THEN "consume" ELSE "consume_once")
   \/ HExit
   \/ \E g \in GuardIds : HDrop(g)
+  \/ \E e \in 1..Engines, o \in Objs, p \in Places : HRwr(e, o, p)
 
 \* a behaviour is complete when every guard is gone
 Finish ==
@@ -456,7 +491,7 @@ Spec == Init /\ [][Next]_vars
 
 -----------------------------------------------------------------------------
 (* Output *)
-FeatOrder == <<"2eng", "2refs", "nest", "relend", "nonlifo", "pairsame",
+FeatOrder == <<"2eng", "2refs", "nest", "relend", "nonlifo", "pairsame", "rwr",
                "derive-mut", "derive-ro", "dropchild", "stash-child",
                "stash-global", "stash-closure", "stash-list", "stash-box", "stash-hash", "stash-cont", "stash-host">>
 BlameOrder == <<"dangling", "unfaithful", "childlost">>
